@@ -447,7 +447,20 @@ func (e *Engine) chanSend(ch *ChanObj, v Value) {
 			ch.buf = append(ch.buf, v)
 			return
 		}
-		if ch.closed || !e.runQueued() {
+		if ch.closed {
+			break
+		}
+		var o *sendOffer
+		if ch.cap == 0 && e.inGoroutine == 0 {
+			o = &sendOffer{val: v}
+			ch.offer = o
+		}
+		ran := e.runQueued()
+		ch.offer = nil
+		if o != nil && o.taken {
+			return
+		}
+		if !ran {
 			break
 		}
 	}
@@ -456,6 +469,11 @@ func (e *Engine) chanSend(ch *ChanObj, v Value) {
 		panic(pathEnd{kind: "infeasible"})
 	}
 	e.block("send on full channel")
+}
+
+// offered: the harness goroutine is parked sending on ch and nobody has taken the value yet.
+func (e *Engine) offered(ch *ChanObj) bool {
+	return e.inGoroutine > 0 && ch.offer != nil && !ch.offer.taken && len(ch.buf) == 0
 }
 
 func (e *Engine) chanRecv(ch *ChanObj) (Value, bool) {
@@ -467,6 +485,10 @@ func (e *Engine) chanRecv(ch *ChanObj) (Value, bool) {
 			v := ch.buf[0]
 			ch.buf = ch.buf[1:]
 			return v, true
+		}
+		if e.offered(ch) {
+			ch.offer.taken = true
+			return ch.offer.val, true
 		}
 		if ch.closed {
 			return e.zero(ch.elemT), false
@@ -500,6 +522,7 @@ func (e *Engine) selectOp(fr *Frame, x *ssa.Select) Value {
 	}
 	var states []st
 	var ready []int
+	takenIdx := -1
 	var timers []int // receive cases on the channel of an armed timer that has not fired yet
 	for _, s := range x.States {
 		ch, _ := e.get(fr, s.Chan).(*ChanObj)
@@ -520,7 +543,7 @@ func (e *Engine) selectOp(fr *Frame, x *ssa.Select) Value {
 				if ch.closed || e.canSend(ch) {
 					ready = append(ready, i)
 				}
-			} else if len(ch.buf) > 0 || ch.closed {
+			} else if len(ch.buf) > 0 || ch.closed || e.offered(ch) {
 				ready = append(ready, i)
 			} else if ch.timer != nil && ch.timer.timerArmed {
 				timers = append(timers, i)
@@ -531,20 +554,46 @@ func (e *Engine) selectOp(fr *Frame, x *ssa.Select) Value {
 		}
 		// the harness goroutine cannot proceed: queued goroutines run (it counts as a waiting
 		// receiver on the channels of its receive cases), then the cases are looked at again
-		for _, cur := range states {
-			if !cur.send && cur.ch != nil {
+		offers := map[int]*sendOffer{}
+		for i, cur := range states {
+			if cur.ch == nil {
+				continue
+			}
+			if !cur.send {
 				cur.ch.recvWaiting++
+			} else if cur.ch.cap == 0 && !cur.ch.closed && e.inGoroutine == 0 && cur.ch.offer == nil {
+				o := &sendOffer{val: cur.val}
+				cur.ch.offer = o
+				offers[i] = o
 			}
 		}
 		ran := e.runQueued()
-		for _, cur := range states {
-			if !cur.send && cur.ch != nil {
+		for i, cur := range states {
+			if cur.ch == nil {
+				continue
+			}
+			if !cur.send {
 				cur.ch.recvWaiting--
+			} else if o, ok := offers[i]; ok {
+				cur.ch.offer = nil
+				if o.taken && takenIdx < 0 {
+					takenIdx = i
+				}
 			}
 		}
-		if !ran {
+		if takenIdx >= 0 || !ran {
 			break
 		}
+	}
+	if takenIdx >= 0 {
+		// a queued goroutine received what this select was offering: that send case happened
+		res := TupleV{e.intConst(takenIdx), e.ts.False}
+		for _, s := range x.States {
+			if s.Dir == types.RecvOnly {
+				res = append(res, e.zero(s.Chan.Type().Underlying().(*types.Chan).Elem()))
+			}
+		}
+		return res
 	}
 	if len(ready) == 0 && x.Blocking && len(timers) > 0 {
 		// nothing else can make progress in the sequential execution: time passes until the
